@@ -311,15 +311,62 @@ def show_tag(tag) -> str:
 SAFE = set("abcdefghijklmnopqrstuvwxyzABCDEFGHIJKLMNOPQRSTUVWXYZ0123456789-_.:+ ")
 
 
+_CUSTOM_FMT = {}
+
+
+def custom_formatter(kind):
+    """Formatter subclasses that override `attributes()` — the documented extension point (the documentation's
+    UnsortedAttributes yields tag.attrs.items() as they are); `_format_tag` must still join list values itself"""
+    if not _CUSTOM_FMT:
+        from bs4.formatter import HTMLFormatter
+
+        class UnsortedAttributes(HTMLFormatter):
+            def attributes(self, tag):
+                for k, v in tag.attrs.items():
+                    yield k, v
+
+        class ReversedAttributes(HTMLFormatter):
+            def attributes(self, tag):
+                return sorted(tag.attrs.items(), key=lambda kv: str(kv[0]), reverse=True)
+
+        class SkipId(HTMLFormatter):
+            def attributes(self, tag):
+                return [(k, v) for k, v in sorted(tag.attrs.items(), key=lambda kv: str(kv[0])) if str(k) != "id"]
+
+        _CUSTOM_FMT.update(unsorted=UnsortedAttributes, reversed=ReversedAttributes, skipid=SkipId)
+    return _CUSTOM_FMT[kind](entity_substitution=None)
+
+
+def custom_selection(kind, items):
+    """what that formatter's attributes() hands back, for (key, value) pairs in dictionary order"""
+    if kind == "unsorted":
+        return list(items)
+    if kind == "reversed":
+        return sorted(items, key=lambda kv: str(kv[0]), reverse=True)
+    return [(k, v) for k, v in sorted(items, key=lambda kv: str(kv[0])) if str(k) != "id"]
+
+
 def default_decode_check(tag):
+    bad = _decode_check(tag, None)
+    if bad:
+        return bad
+    for kind in ("unsorted", "reversed"):
+        bad = _decode_check(tag, kind)
+        if bad:
+            return (f"[formatter overriding attributes(): {kind}] " + bad[0], bad[1])
+    return None
+
+
+def _decode_check(tag, custom):
     """the default output: list values joined by single spaces inside the quoted attribute (only for values without
     characters that need escaping). Returns None if fine / not applicable, else (expected_prefix, observed)."""
     parts = []
-    for k, v in sorted(tag.attrs.items(), key=lambda kv: kv[0]):
+    pairs = sorted(tag.attrs.items(), key=lambda kv: kv[0]) if custom is None else custom_selection(custom, tag.attrs.items())
+    for k, v in pairs:
         if v is None:
             parts.append(f" {k}")
             continue
-        if isinstance(v, list):
+        if isinstance(v, (list, tuple)):
             if not all(isinstance(x, str) for x in v):
                 return None
             s = " ".join(v)
@@ -332,7 +379,7 @@ def default_decode_check(tag):
         parts.append(f' {k}="{s}"')
     want = "<" + (tag.prefix + ":" if tag.prefix else "") + tag.name + "".join(parts)
     try:
-        got = tag.decode()
+        got = tag.decode() if custom is None else tag.decode(formatter=custom_formatter(custom))
     except Exception as e:  # pragma: no cover
         return (want, f"raised {type(e).__name__}")
     if got.startswith(want + ">") or got.startswith(want + "/>"):
@@ -362,10 +409,38 @@ def cb_upper(attrs, key, value):
     attrs[key] = value + "!"
 
 
-ONDUP = {"absent": None, "replace": "replace", "None": None, "ignore": "ignore", "Replace": "Replace", "keep": "keep",
+class FalsyAccumulate(list):
+    """a callable handler OBJECT whose truth value is False (an empty list subclass): it must still be consulted"""
+    def __call__(self, attrs, key, value):
+        accumulate(attrs, key, value)
+
+    def __bool__(self):
+        return False
+
+
+class ZeroLenNoop:
+    """a callable with __len__ == 0 (falsy) that keeps the first value"""
+    def __len__(self):
+        return 0
+
+    def __call__(self, attrs, key, value):
+        pass
+
+
+class DropHandler:
+    def drop(self, attrs, key, value):
+        del attrs[key]
+
+
+_DROP_HANDLER = DropHandler()
+import functools  # noqa: E402
+
+ONDUP = {"falsy-accumulate": FalsyAccumulate(), "falsy-noop": ZeroLenNoop(), "partial-upper": functools.partial(cb_upper),
+         "method-drop": _DROP_HANDLER.drop, "absent": None, "replace": "replace", "None": None, "ignore": "ignore", "Replace": "Replace", "keep": "keep",
          "accumulate": accumulate,
          "noop": cb_noop, "drop": cb_drop, "upper": cb_upper}
-ONDUP_MODEL = {"absent": "absent", "replace": "replace", "None": "None", "ignore": "ignore", "Replace": "Replace",
+ONDUP_MODEL = {"falsy-accumulate": "cb:accumulate", "falsy-noop": "cb:noop", "partial-upper": "cb:upper",
+               "method-drop": "cb:drop", "absent": "absent", "replace": "replace", "None": "None", "ignore": "ignore", "Replace": "Replace",
                "keep": "keep", "accumulate": "cb:accumulate", "noop": "cb:noop", "drop": "cb:drop", "upper": "cb:upper"}
 
 
@@ -405,6 +480,9 @@ def builder_kwargs(cfg):
     od = cfg.get("ondup", "absent")
     if od != "absent":
         kw["on_duplicate_attribute"] = form_str(ONDUP[od], cfg.get("form"))
+    if "pk" in cfg:
+        # a fresh dictionary each time (the constructor writes into the caller's dictionary)
+        kw["parser_kwargs"] = {} if cfg["pk"] == "empty" else {"on_duplicate_attribute": form_str(ONDUP[cfg["pk"]], cfg.get("form"))}
     if cfg.get("form") not in (None, "literal") and "multi_valued_attributes" in kw and kw["multi_valued_attributes"]:
         # map keys and attribute names as run-time strings too
         kw["multi_valued_attributes"] = {form_str(k, "join"): type(v)(form_str(a, "slice") for a in v)
@@ -485,6 +563,16 @@ def live_table(cfg):
     if cfg["mva"] is None:
         return None
     return {k: set(v) for k, v in cfg["mva"]}
+
+
+def effective_policy(cfg) -> str:
+    """which setting is in force: the builder keyword when it is passed (even None), else the parser_kwargs entry, else
+    the default"""
+    od = cfg.get("ondup", "absent")
+    if od != "absent":
+        return od
+    pk = cfg.get("pk", "empty")
+    return "absent" if pk == "empty" else pk
 
 
 def covered(table, tag, attr) -> bool:
@@ -572,7 +660,7 @@ def oracle(case) -> str:
     if kind == "parse":
         cfg = case["cfg"]
         d = {}
-        pol = cfg.get("ondup", "absent")
+        pol = effective_policy(cfg)
         for k, v in case["attrs"]:
             v = "" if v is None else v
             if k in d:
@@ -779,6 +867,11 @@ def model_line(case) -> str:
         m, d, l = cfg_model(case["cfg"])
         name, attrs = case["name"], case["attrs"]
         raw = "&".join(f"{tok(k)}={'~' if v is None else tok(v)}" for k, v in attrs) or "-"
+        if "pk" in case["cfg"]:
+            od = case["cfg"].get("ondup", "absent")
+            kwt = "-" if od == "absent" else ONDUP_MODEL[od]
+            pkt = "-" if case["cfg"]["pk"] == "empty" else ONDUP_MODEL[case["cfg"]["pk"]]
+            return f"c17 parse2 {m} {d} {l} {kwt} {pkt} {tok(name)} {raw}"
         return f"c17 parse {m} {d} {l} {ONDUP_MODEL[case['cfg'].get('ondup', 'absent')]} {tok(name)} {raw}"
     if kind == "tag" and case.get("via") == "copy":
         items = "&".join(f"{tok(key_str(k))}={enc_val(mk(vd))}" for k, vd in case["attrs"]) or "-"
@@ -905,7 +998,13 @@ def gen_cfg(r, allow_ondup=True):
     mva = r.choice(["default", "default", "default", None] + CUSTOM_MAPS)
     cfg = {"mva": mva, "dcls": r.choice(["absent", "absent", "plain", "html", "xml"]), "lcls": r.choice([0, 0, 1, 2])}
     if allow_ondup:
-        cfg["ondup"] = r.choice(["absent", "replace", "None", "ignore", "accumulate", "noop", "drop", "upper", "Replace", "keep"])
+        cfg["ondup"] = r.choice(["absent", "replace", "None", "ignore", "accumulate", "noop", "drop", "upper", "Replace", "keep",
+                                 "falsy-accumulate", "falsy-noop", "partial-upper", "method-drop"])
+        if r.random() < 0.3:
+            # the other route of the option: parser_kwargs={"on_duplicate_attribute": …} ("empty": parser_kwargs={})
+            cfg["pk"] = r.choice(["ignore", "replace", "accumulate", "falsy-noop", "upper", "None", "empty", "keep"])
+            if r.random() < 0.6:
+                cfg["ondup"] = "absent"          # parser_kwargs alone
     if r.random() < 0.15:
         cfg["xml"] = True      # XML-flavoured builder (is_xml, the empty base table unless a map is given)
     if r.random() < 0.4:
@@ -1384,7 +1483,8 @@ def directed_history_cases():
 # output of the attribute part of a tag; reading and deleting attributes
 # --------------------------------------------------------------------------------------
 
-FORMATTERS = ["id0", "id1", "None", "minimal", "html", "html5", "html5-4.12"]
+FORMATTERS = ["id0", "id1", "None", "minimal", "html", "html5", "html5-4.12", "unsorted", "reversed", "skipid"]
+CUSTOM_FORMATTERS = ("unsorted", "reversed", "skipid")
 
 
 def _tag_holding(case):
@@ -1404,6 +1504,8 @@ def _tag_holding(case):
 def _formatter_for(case, tag):
     from bs4.formatter import HTMLFormatter
     f = case["fmt"]
+    if f in CUSTOM_FORMATTERS:
+        return custom_formatter(f)
     if f in ("id0", "id1"):
         return HTMLFormatter(entity_substitution=None, empty_attributes_are_booleans=(f == "id1"))
     return tag.formatter_for_name(None if f == "None" else f)
@@ -1437,7 +1539,9 @@ def oracle_format(case):
     eb = _formatter_for(case, tag).empty_attributes_are_booleans
     parts = []
     try:
-        for k, v in sorted(tag.attrs.items(), key=lambda kv: str(kv[0])):
+        pairs = custom_selection(case["fmt"], tag.attrs.items()) if case["fmt"] in CUSTOM_FORMATTERS else \
+            sorted(tag.attrs.items(), key=lambda kv: str(kv[0]))
+        for k, v in pairs:
             if v is None or (eb and isinstance(v, str) and v == ""):
                 parts.append(str(k))
                 continue
@@ -1457,6 +1561,9 @@ def oracle_format(case):
 def format_line(case):
     tag = _tag_holding(case)
     eb = _formatter_for(case, tag).empty_attributes_are_booleans     # the registry flag is generated into Lean too
+    if case["fmt"] in CUSTOM_FORMATTERS:
+        sel = custom_selection(case["fmt"], [(key_str(k), vd) for k, vd in case["items"]])
+        return "c17 fmtsel " + ("&".join(f"{tok(k)}={enc_val(mk(vd))}" for k, vd in sel) or "-")
     items = "&".join(f"{tok(key_str(k))}={enc_val(mk(vd))}" for k, vd in case["items"]) or "-"
     return f"c17 fmt {1 if eb else 0} {items}"
 
@@ -1829,6 +1936,12 @@ def run(ctx: Ctx):
                     cfg = {"mva": "default", "dcls": dcls, "lcls": 0, "ondup": pol}
                     cases.append({"kind": "parse", "cfg": cfg, "name": "a", "attrs": al, "markup": markup_for("a", al)})
     for pol in ONDUP:
+        for pk in [p for p in ONDUP if p != "absent"] + ["empty"]:
+            for kwp in ("absent", pol):
+                al = [["href", "first"], ["class", "a b"], ["href", None], ["href", "third"], ["class", "c"]]
+                cfg = {"mva": "default", "dcls": "absent", "lcls": 0, "ondup": kwp, "pk": pk}
+                cases.append({"kind": "parse", "cfg": cfg, "name": "a", "attrs": al, "markup": markup_for("a", al)})
+    for pol in ONDUP:
         for form in OPTION_FORMS:
             for via in [None] + BUILDER_VIAS:
                 for xml in (False, True):
@@ -1848,6 +1961,8 @@ def run(ctx: Ctx):
         ks = [k for k, _ in c["attrs"]]
         ctx.count("parse:dup" if len(set(ks)) < len(ks) else "parse:nodup")
         ctx.count("parse:ondup=" + c["cfg"].get("ondup", "absent"))
+        ctx.count("parse:route=" + ("parser_kwargs" if "pk" in c["cfg"] and c["cfg"].get("ondup", "absent") == "absent" else
+                                    "both" if "pk" in c["cfg"] else "keyword"))
         ctx.count("parse:mva=" + ("default" if c["cfg"]["mva"] == "default" else "none" if c["cfg"]["mva"] is None else "custom"))
         ctx.count("parse:dcls=" + c["cfg"].get("dcls", "absent"))
         ctx.count("parse:form=" + str(c["cfg"].get("form", "literal")))
